@@ -10,3 +10,4 @@ import OQuPyVerif.Props.C18
 import OQuPyVerif.Props.C14
 import OQuPyVerif.Props.C05
 import OQuPyVerif.Props.C07
+import OQuPyVerif.Props.C20
